@@ -51,21 +51,47 @@ Proof.
   apply byte_eqb_eq. revert a. apply byte_sweep. vm_compute. reflexivity.
 Qed.
 
-(* multiplication by each MixColumns / InvMixColumns constant distributes over xor *)
-Definition dist_ok (c : N) (a b : byte) : bool :=
-  byte_eqb (gmulb c (a (+) b)) (gmulb c a (+) gmulb c b).
-Lemma gmulb_xor_2 a b : gmulb 2 (a (+) b) = gmulb 2 a (+) gmulb 2 b.
-Proof. apply byte_eqb_eq. revert a b. apply (byte_sweep2 (dist_ok 2)). vm_cast_no_check (eq_refl true). Qed.
-Lemma gmulb_xor_3 a b : gmulb 3 (a (+) b) = gmulb 3 a (+) gmulb 3 b.
-Proof. apply byte_eqb_eq. revert a b. apply (byte_sweep2 (dist_ok 3)). vm_cast_no_check (eq_refl true). Qed.
-Lemma gmulb_xor_9 a b : gmulb 9 (a (+) b) = gmulb 9 a (+) gmulb 9 b.
-Proof. apply byte_eqb_eq. revert a b. apply (byte_sweep2 (dist_ok 9)). vm_cast_no_check (eq_refl true). Qed.
-Lemma gmulb_xor_11 a b : gmulb 11 (a (+) b) = gmulb 11 a (+) gmulb 11 b.
-Proof. apply byte_eqb_eq. revert a b. apply (byte_sweep2 (dist_ok 11)). vm_cast_no_check (eq_refl true). Qed.
-Lemma gmulb_xor_13 a b : gmulb 13 (a (+) b) = gmulb 13 a (+) gmulb 13 b.
-Proof. apply byte_eqb_eq. revert a b. apply (byte_sweep2 (dist_ok 13)). vm_cast_no_check (eq_refl true). Qed.
-Lemma gmulb_xor_14 a b : gmulb 14 (a (+) b) = gmulb 14 a (+) gmulb 14 b.
-Proof. apply byte_eqb_eq. revert a b. apply (byte_sweep2 (dist_ok 14)). vm_cast_no_check (eq_refl true). Qed.
+(* multiplication by a constant distributes over xor: xtime is additive on bytes (65536 pairs),
+   hence so is every sum of xtime-multiples *)
+Lemma xtime_lt x : x < 256 -> xtime x < 256.
+Proof.
+  intro H. assert (Hs : forallb (fun x => xtime x <? 256) (Nrange 256) = true) by (vm_cast_no_check (eq_refl true)).
+  apply N.ltb_lt. exact (sweep _ _ Hs x H).
+Qed.
+Lemma xtime_xor a b : a < 256 -> b < 256 -> xtime (N.lxor a b) = N.lxor (xtime a) (xtime b).
+Proof.
+  intros Ha Hb.
+  assert (Hs : forallb (fun x => forallb (fun y => xtime (N.lxor x y) =? N.lxor (xtime x) (xtime y)) (Nrange 256))
+                       (Nrange 256) = true) by (vm_cast_no_check (eq_refl true)).
+  apply N.eqb_eq. exact (sweep2 (fun x y => xtime (N.lxor x y) =? N.lxor (xtime x) (xtime y)) 256 256 Hs a b Ha Hb).
+Qed.
+Lemma lxor_lt_256 a b : a < 256 -> b < 256 -> N.lxor a b < 256.
+Proof. intros. apply (lxor_lt_pow2 _ _ 8); assumption. Qed.
+Lemma gmul_aux_lt n : forall c a, a < 256 -> gmul_aux n c a < 256.
+Proof.
+  induction n as [|n IH]; intros c a Ha; [reflexivity|].
+  cbn [gmul_aux]. apply lxor_lt_256; [destruct (N.odd c); [exact Ha|reflexivity]|].
+  apply IH, xtime_lt, Ha.
+Qed.
+Lemma gmul_aux_xor n : forall c a b, a < 256 -> b < 256 ->
+  gmul_aux n c (N.lxor a b) = N.lxor (gmul_aux n c a) (gmul_aux n c b).
+Proof.
+  induction n as [|n IH]; intros c a b Ha Hb; [reflexivity|].
+  cbn [gmul_aux]. rewrite xtime_xor by assumption.
+  rewrite IH by (apply xtime_lt; assumption).
+  destruct (N.odd c); nxor_ac.
+Qed.
+Lemma gmulb_xor c a b : gmulb c (a (+) b) = gmulb c a (+) gmulb c b.
+Proof.
+  unfold gmulb, gmul. rewrite b2n_xor, gmul_aux_xor by apply b2n_lt.
+  unfold xor_byte. rewrite !b2n_n2b_small by (apply gmul_aux_lt, b2n_lt). reflexivity.
+Qed.
+Lemma gmulb_xor_2 a b : gmulb 2 (a (+) b) = gmulb 2 a (+) gmulb 2 b. Proof. apply gmulb_xor. Qed.
+Lemma gmulb_xor_3 a b : gmulb 3 (a (+) b) = gmulb 3 a (+) gmulb 3 b. Proof. apply gmulb_xor. Qed.
+Lemma gmulb_xor_9 a b : gmulb 9 (a (+) b) = gmulb 9 a (+) gmulb 9 b. Proof. apply gmulb_xor. Qed.
+Lemma gmulb_xor_11 a b : gmulb 11 (a (+) b) = gmulb 11 a (+) gmulb 11 b. Proof. apply gmulb_xor. Qed.
+Lemma gmulb_xor_13 a b : gmulb 13 (a (+) b) = gmulb 13 a (+) gmulb 13 b. Proof. apply gmulb_xor. Qed.
+Lemma gmulb_xor_14 a b : gmulb 14 (a (+) b) = gmulb 14 a (+) gmulb 14 b. Proof. apply gmulb_xor. Qed.
 
 (* ---- MixColumns / InvMixColumns -------------------------------------------------- *)
 
